@@ -11,6 +11,7 @@ def engine(ctx, modules=("contracts.report", "contracts.cli")):
     d.declare_io(e)
     d.declare_licensing(e)
     d.declare_cli(e)
+    d.declare_paths(e)
     return e
 
 
